@@ -119,6 +119,24 @@ def r13_2(ctx):
         r.ok({"batching": "current_len + chunk.len() > MAX_SCTP_PACKET_SIZE starts a new packet"})
     else:
         r.violate(b.name, "batch:limit", b.where(0), "chunk batching is not bounded by MAX_SCTP_PACKET_SIZE")
+    # the accumulator compared with the limit is  header + sum of the chunks batched so far: it is only ever
+    # (re)started at SCTP_COMMON_HEADER_SIZE and only advanced by the length of the chunk being added
+    cl = [i for i, l in enumerate(b.locals) if l.get("n") == "current_len"]
+    if len(cl) != 1:
+        raise core.CheckerError("R13.2: accumulator current_len not found in transmit_chunks_with_tag")
+    defs = b.var_def_terms(cl[0])
+    if len(defs) < 3:
+        raise core.CheckerError("R13.2: expected >= 3 definitions of current_len, found %d" % len(defs))
+    for t in defs:
+        start = t[0] == "item" and t[1].endswith("SCTP_COMMON_HEADER_SIZE")
+        step = t[0] == "bin" and t[1] == "Add" and any(x[:2] == ("var", "current_len") for x in (t[2], t[3])) and \
+            any(x[0] == "call" and x[1].endswith("::len") for x in (t[2], t[3]))
+        if start or step:
+            r.ok({"current_len :=": mir.show(t, 100)})
+        else:
+            r.violate(b.name, "acc:current_len", b.where(0),
+                      "packet length accumulator set to %s: it no longer equals common header + batched chunks, so a packet of the "
+                      "flush can exceed MAX_SCTP_PACKET_SIZE" % mir.show(t, 80))
     # each flush happens before the chunk that would overflow is added: send_packet_with_tag on the Gt-true edge
     sd = ctx.body(S + "send_data_raw::{closure#0}")
     r.scope.append(sd.name)
